@@ -471,6 +471,44 @@ mod if_alloc {
             }
         }
 
+        /// Verification hook: keeps the shared state alive and observable
+        /// without being a sender or receiver handle.
+        #[cfg(futures_intrusive_verif)]
+        pub struct VerifPeek<MutexType, T>
+        where
+            MutexType: RawMutex,
+            T: Clone + 'static,
+        {
+            inner: alloc::sync::Arc<GenericOneshotChannelSharedState<MutexType, T>>,
+        }
+
+        #[cfg(futures_intrusive_verif)]
+        impl<MutexType, T> VerifPeek<MutexType, T>
+        where
+            MutexType: RawMutex,
+            T: Clone + 'static,
+        {
+            /// Verification hook: snapshot of the channel
+            pub fn verif_snapshot(&self) -> crate::verif::Snapshot {
+                let snap = self.inner.channel.verif_snapshot();
+                snap
+            }
+        }
+
+        #[cfg(futures_intrusive_verif)]
+        impl<MutexType, T> GenericOneshotBroadcastSender<MutexType, T>
+        where
+            MutexType: RawMutex,
+            T: Clone + 'static,
+        {
+            /// Verification hook: an uncounted reference to the shared state
+            pub fn verif_peek(&self) -> VerifPeek<MutexType, T> {
+                VerifPeek {
+                    inner: self.inner.clone(),
+                }
+            }
+        }
+
         // Export parking_lot based shared channels in std mode
         #[cfg(feature = "std")]
         mod if_std {
